@@ -31,7 +31,7 @@ def _mk_live(nops, tiers, timeout):
     @symx("C10-live-history-%dops" % nops, tiers=tiers, timeout=timeout, kind="P", functions=F_L,
           bounds="Live on a terminal console (20x%d, no auto-refresh thread) x transient x vertical_overflow in {crop, ellipsis, "
                  "visible} x initial frame height 0..3 x every history of %d operations from {print, log-like second print, "
-                 "update(frame of height 0..4 or 8 > screen, refresh=True), update without refresh, refresh} then stop "
+                 "update(frame of height 0..4 or 8 > screen, refresh=True), update without refresh, refresh} then stop (once or twice) "
                  "(solver-enumerated, native, output replayed on a screen model): the screen shows exactly the printed lines in "
                  "order followed by the current frame (nothing if transient); no cursor-up ever leaves the visible screen; the "
                  "cursor is visible again; hooks and redirection restored" % (H, nops),
@@ -39,6 +39,7 @@ def _mk_live(nops, tiers, timeout):
                   "vertical_overflow='visible' (documented to scroll)" % nops)
     def h(e):
         transient = bool(e.mkbool("transient"))
+        stop_twice = bool(e.mkbool("stop_twice"))
         vo = ["crop", "ellipsis", "visible"][int(e.mk("overflow", 0, 2))]
         h0 = int(e.mk("h0", 0, 3))
         c = mk_console()
@@ -66,6 +67,8 @@ def _mk_live(nops, tiers, timeout):
                     live.refresh()
         finally:
             live.stop()
+            if stop_twice:
+                live.stop()
         ok = sys.stdout is out0 and sys.stderr is err0 and not c._render_hooks
         sys.stdout, sys.stderr = out0, err0
         if not ok:
@@ -177,12 +180,13 @@ def _mk_progress(nops, tiers, timeout):
                            "rich/progress.py:Progress.process_renderables", "rich/progress.py:Progress.add_task",
                            "rich/progress.py:Progress.remove_task", "rich/progress.py:Progress.update"],
           bounds="Progress (one text column, no refresh thread) on a 30x8 terminal x transient x every history of %d operations from "
-                 "{print, add_task, hide the newest visible task, show it again, remove the oldest task, advance, refresh} then stop "
+                 "{print, add_task, hide the newest visible task, show it again, remove the oldest task, advance, refresh} then stop (once or twice) "
                  "(solver-enumerated, native, replayed on the screen model): printed lines intact and in order, followed by one line "
                  "per visible task (nothing if transient); no cursor-up leaves the screen; cursor visible again" % nops,
           outside="refresh threads; more than %d operations; more tasks than fit the screen" % nops)
     def h(e):
         transient = bool(e.mkbool("transient"))
+        stop_twice = bool(e.mkbool("stop_twice"))
         c = Console(file=io.StringIO(), force_terminal=True, width=30, height=8, color_system=None, legacy_windows=False,
                     _environ={})
         out0, err0 = sys.stdout, sys.stderr
@@ -220,6 +224,8 @@ def _mk_progress(nops, tiers, timeout):
                     p.refresh()
         finally:
             p.stop()
+            if stop_twice:
+                p.stop()
         ok = sys.stdout is out0 and sys.stderr is err0 and not c._render_hooks
         sys.stdout, sys.stderr = out0, err0
         scr = Screen(8)
